@@ -45,6 +45,7 @@ type Req struct {
 	Negative     bool // unsupported op or bind version != 3
 	Corrupt      bool
 	Inline       bool // gldap serves it on the connection goroutine (StartTLS, Unbind)
+	Injected     bool // plaintext placed right behind a StartTLS request: must never be served (C13)
 
 	// scheduler-side state
 	sent      bool
@@ -96,6 +97,7 @@ type Client struct {
 	Late        bool // connects only after a fault (C07 accepts-after) or after Stop
 	StartPaused bool // does not read from the start (C06 write-block variant)
 	Eager       bool // StartTLS flavour, C15 only: asks for StartTLS with earlier requests still outstanding
+	Injecting   bool // StartTLS flavour: a plaintext request rides in the same segment right behind the StartTLS request
 	// Behaviour: "" conforming; C18 misbehaviours: plaintext garbage silent abandon nocert wrongca
 	Behaviour string
 	Offending bool // must never reach a handler under the server's TLS configuration
@@ -135,16 +137,17 @@ type CoreCfg struct {
 	Tier string
 	Lean bool // race build: oracles that read payloads are off
 
-	LogLevel     hclog.Level
-	ReadTimeout  time.Duration
-	WriteTimeout time.Duration
-	NoRecovery   bool
-	OnClose      int // 0 none, 1 fast, 2 stalls until released
-	TLSMode      int // 0 plain listener, 1 server-auth TLS, 2 client certificate required and verified
-	Port         int
-	Addr         string
-	Malformed    bool // Addr is malformed: Run must fail
-	BusyPort     bool // the port is already bound when Run starts
+	LogLevel       hclog.Level
+	ReadTimeout    time.Duration
+	WriteTimeout   time.Duration
+	NoRecovery     bool
+	OnClose        int  // 0 none, 1 fast, 2 stalls until released
+	TLSMode        int  // 0 plain listener, 1 server-auth TLS, 2 client certificate required and verified
+	TLSViaCallback bool // the server certificate is supplied through GetCertificate
+	Port           int
+	Addr           string
+	Malformed      bool // Addr is malformed: Run must fail
+	BusyPort       bool // the port is already bound when Run starts
 
 	Routes     []RouteSpec
 	HasDefault bool
@@ -398,7 +401,11 @@ func (c *Core) startRun(s *Sim) {
 	srv, addr := c.srv, c.Cfg.Addr
 	var ropts []gldap.Option
 	if c.Cfg.TLSMode > 0 {
-		ropts = append(ropts, gldap.WithTLSConfig(serverTLS(c.Cfg.TLSMode)))
+		m := c.Cfg.TLSMode
+		if c.Cfg.TLSViaCallback {
+			m += 10
+		}
+		ropts = append(ropts, gldap.WithTLSConfig(serverTLS(m)))
 	}
 	s.W.Go("run", func() {
 		simrt.Emit("run-call", 0, 0, 0, 0, addr, nil)
